@@ -76,6 +76,17 @@ func genLR(r *rand.Rand, indirect bool) *gast.Grammar {
 				items[0] = gast.Ref(self) // unlabelled recursive reference
 			}
 			seq := gast.S(decor(items)...)
+			if r.Intn(5) == 0 {
+				// a twin alternative with the same recursive prefix that needs one more terminal: when
+				// it fails, everything after the recursive reference is evaluated a second time
+				twin := gast.S(append(seq.Clone().Subs, gast.L("!"))...)
+				gast.Walk(twin, func(e *gast.Expr) {
+					if e.Code != nil {
+						e.Code.ID = nid()
+					}
+				})
+				alts = append(alts, gast.A(twin, nid(), actSpec()))
+			}
 			if r.Intn(6) == 0 {
 				alts = append(alts, seq) // no action: structural left-nested value
 			} else {
@@ -240,13 +251,41 @@ func C08(c *Ctx) {
 			ds := compareModel(CmpVal|CmpEnd|CmpErrs|CmpState|CmpOK, mc, r, m)
 			if len(ds) > 0 {
 				d := ds[0]
+				sig := c08Sig(g, cs, m, r, d)
+				if cs.Memo && g.UsesState && d.field == "finalstate" {
+					// known finding F22: a memoized result is reused without its state changes
+					sig = append(sig, "F22-memo-state-not-replayed")
+				}
+				if !cs.Memo {
+					// the always-on memo of left-recursive rules: the observation equals the model variant in
+					// which a finished left-recursive result stays cached for its offset (F06 for the errors
+					// it loses, F22 for the state changes)
+					mv := ref.Run(g, cs.Input, ref.Opts{LR: true, LRKeepSeeds: true, StepCap: 300000, MaxEvents: 1, Entry: cs.Entry})
+					if !mv.Capped && len(compareModel(CmpVal|CmpEnd|CmpErrs|CmpState|CmpOK, mc, r, mv)) == 0 {
+						for _, x := range ds {
+							if x.field == "finalstate" {
+								sig = append(sig, "F22-memo-state-not-replayed")
+							} else {
+								sig = append(sig, "F06-lr-memo-lost-error")
+							}
+						}
+					}
+				}
 				c.Report(&Violation{Class: "C08/model-" + d.field, Summary: fmt.Sprintf("%s differs from the iterative reading on grammar %q input %q memoize=%t: want %v got %v", d.field, gast.Short(g), cs.Input, cs.Memo, trunc(d.want), trunc(d.got)),
 					Grammar: gast.Print(g, gast.PrintOpts{Pkg: cs.Pkg}), Flags: []string{"-support-left-recursion"}, Input: cs.Input, Case: cs, Want: d.want, Got: d.got,
-					Sig: c08Sig(g, cs, m, r, d)})
+					Sig: sig})
 			}
 		},
 		NonTrivial: func(*mon.Result, *mon.Case) bool { return false },
 		Chunk:      45,
+		SigCase: func(g *gast.Grammar, variant []string, d diff, base *mon.Case) []string {
+			// the reference ran with Memoize(true), the optimized parser has no such option: a final
+			// state that differs is known finding F22 (memoized results lose their state changes)
+			if base.Memo && g.UsesState && d.field == "finalstate" {
+				return []string{"F22-memo-state-not-replayed"}
+			}
+			return nil
+		},
 		Sig: func(g *gast.Grammar, variant []string, d diff) []string {
 			// the optimized parser has no Memoize option: a difference in the error text where the
 			// memoizing reference run lost lines that the optimized run reports is F06 again
@@ -259,6 +298,7 @@ func C08(c *Ctx) {
 		},
 	}
 	c.runKnownF06()
+	c.runKnownF22()
 	c.DiffCheck(cfg)
 }
 
@@ -319,6 +359,12 @@ func c08Strata() []*gast.Grammar {
 		mk(r("S", gast.S(gast.Ref("E1"), gast.Star(gast.S(gast.L("+"), gast.Ref("N"))), gast.NotE(gast.Dot()))),
 			r("E1", gast.C(act(gast.S(gast.Lab("a", gast.Ref("E1")), gast.L("+"), gast.Lab("b", gast.Ref("N")), gast.L("!")), 1, mon.Spec{}), gast.Ref("N"))),
 			r("N", act(gast.Plus(gast.Cl(&gast.ClassSpec{Ranges: [][2]rune{{'0', '9'}}})), 2, mon.Spec{E: 2}))),
+		// two recursive alternatives sharing the recursive prefix; the first calls a plain rule and
+		// then fails, so everything after the recursive reference is evaluated twice per growth step
+		mk(r("S", gast.S(gast.Lab("a", gast.Ref("E1")), gast.Star(gast.Dot()))),
+			r("E1", gast.C(act(gast.S(gast.Lab("a", gast.Ref("E1")), gast.L("+"), gast.Lab("b", gast.Ref("At")), gast.L("!")), 1, mon.Spec{}),
+				act(gast.S(gast.Lab("a", gast.Ref("E1")), gast.L("+"), gast.Lab("b", gast.Ref("At"))), 2, mon.Spec{}), gast.Ref("At"))),
+			r("At", act(gast.Plus(gast.Cl(&gast.ClassSpec{Ranges: [][2]rune{{'0', '9'}}})), 3, mon.Spec{}))),
 		// classic two-level arithmetic
 		mk(r("S", gast.S(gast.Ref("E1"), gast.NotE(gast.Dot()))),
 			r("E1", gast.C(act(gast.S(gast.Lab("a", gast.Ref("E1")), gast.L("+"), gast.Lab("b", gast.Ref("E2"))), 1, mon.Spec{}), gast.Ref("E2"))),
